@@ -50,6 +50,7 @@ pub fn plan_hash(cfg: &Cfg, plan: &[Step]) -> u64 {
 }
 
 fn run_n<const N: usize>(cfg: &Cfg, src: &mut dyn Source, hard_cap: usize, record: bool) -> RunOut {
+    let made0 = sodg::verif::collections::containers_made();
     let mut ex: Exec<N> = Exec::new(cfg.clone());
     if record {
         ex.record = Some(Vec::new());
@@ -87,7 +88,7 @@ fn run_n<const N: usize>(cfg: &Cfg, src: &mut dyn Source, hard_cap: usize, recor
     ex.stats.add("fault.short_io", d.short_io);
     ex.stats.add("disk.bytes_written", d.bytes_written);
     ex.stats.add("disk.bytes_read", d.bytes_read);
-    ex.stats.add("hash.containers_made", 0);
+    ex.stats.add("hash.seeded_containers_made", sodg::verif::collections::containers_made() - made0);
     let steps_done = ex.view.steps_done;
     ex.finish();
     RunOut {
